@@ -93,6 +93,11 @@ def w_model(ctx, rng, idx, param):
     # the same constructor is first asked for a neighbouring (larger / other) parameter set in the same process and then for the
     # enumerated one, and once more afterwards: whatever a constructor remembers between calls must not leak into the next result
     alt = alternative(rng, name, param[1])
+    if name in ('co_oxidation', 'two_step_destruction', 'exciton_chain', 'ising') and rng.random() < 0.35:
+        # ... or for *nearly* the same parameters (continuous parameters changed in the 6th-8th digit: equal for every tolerance-based
+        # comparison a constructor might use to recognise "the same model as last time", different for the operator)
+        q = 1.0 + float(10 ** rng.uniform(-8, -5)) * (1 if rng.random() < 0.5 else -1)
+        alt = tuple((a * q if isinstance(a, float) else a) for a in args)
     if alt is not None and rng.random() < 0.6:
         call('models.' + name, fn, *alt, prop=P, tags=['model=' + name, 'neighbour_call'])
     ok, res = call('models.' + name, fn, *args, prop=P, tags=['model=' + name])
